@@ -48,6 +48,12 @@ func runC02(p *Prog, r *Report) {
 	if want("C02.7") {
 		ruleRangePredicates(p, r, "C02.7")
 	}
+	if want("C02.8") {
+		ruleIndexedIterator(p, r, "C02.8")
+	}
+	if want("C02.9") {
+		ruleMergedIterator(p, r, "C02.9")
+	}
 }
 
 func retConstBool(val bool) InstrPred {
